@@ -9,4 +9,4 @@ go build -o .build/bin/rewrite ./tools/rewrite || exit 2
 rm -rf .build/rw/sched && mkdir -p .build/rw/sched
 FILES="$(ls /repo/models/*/generated_*.go) /repo/cmd/ow-sim/main.go /repo/cmd/ow-sim/running.go /repo/io/hdf5_util.go"
 .build/bin/rewrite -out .build/rw/sched $FILES || exit 2
-go build -race -overlay .build/rw/sched/overlay.json -o .build/owcheck-sched ./cmd/owcheck || { echo "instrumented build failed" >&2; exit 2; }
+go build -ldflags '-X owverif.local/verif/vrt.Instrumented=yes' -race -overlay .build/rw/sched/overlay.json -o .build/owcheck-sched ./cmd/owcheck || { echo "instrumented build failed" >&2; exit 2; }
